@@ -162,14 +162,25 @@ struct UmadCfg {
 }
 
 fn check_umad_child(child: &[UGene], len: usize, handed_out: u32, first_serial: u32, cfg: &UmadCfg, cfg_text: &str, name: &str, rep: &mut Report) {
-    let witness = |what: &str, rep: &mut Report, why: String| {
-        rep.violation(format!("C11/Umad/{name}/{what}"), || json!({"config": cfg_text, "parent_len": len, "child": format!("{child:?}"), "why": why}));
+    if let Some((what, why)) = judge_umad_child(child, len, handed_out, first_serial, cfg) {
+        rep.violation(format!("C11/Umad/{name}/{what}"), || json!({"config": cfg_text, "parent_len": len, "child": format!("{child:?}").chars().take(3000).collect::<String>(), "why": why}));
+    }
+}
+
+/// The first way in which `child` is not a legal UMAD child of a parent of `len` tagged genes.
+fn judge_umad_child(child: &[UGene], len: usize, handed_out: u32, first_serial: u32, cfg: &UmadCfg) -> Option<(&'static str, String)> {
+    let mut first: Option<(&'static str, String)> = None;
+    let rep = &mut first;
+    let witness = |what: &'static str, rep: &mut Option<(&'static str, String)>, why: String| {
+        if rep.is_none() {
+            *rep = Some((what, why));
+        }
     };
     // surviving parent genes in original order
     let parents: Vec<u32> = child.iter().filter_map(|g| if let UGene::Parent(p) = g { Some(*p) } else { None }).collect();
     if parents.windows(2).any(|w| w[0] >= w[1]) || parents.iter().any(|p| *p as usize >= len) {
         witness("order", rep, format!("surviving parent genes {parents:?} are not a subsequence of the parent"));
-        return;
+        return rep.take();
     }
     // fresh genes: from this call's generator, each at most once
     let fresh: Vec<u32> = child.iter().filter_map(|g| if let UGene::Fresh(s) = g { Some(*s) } else { None }).collect();
@@ -177,11 +188,11 @@ fn check_umad_child(child: &[UGene], len: usize, handed_out: u32, first_serial: 
     for s in &fresh {
         if *s < first_serial || *s >= first_serial + handed_out {
             witness("foreign-gene", rep, format!("fresh gene #{s} was not handed out by the generator during this call (serials {first_serial}..{})", first_serial + handed_out));
-            return;
+            return rep.take();
         }
         if !seen.insert(*s) {
             witness("duplicate-gene", rep, format!("fresh gene #{s} occurs twice"));
-            return;
+            return rep.take();
         }
     }
     if len == 0 {
@@ -201,7 +212,7 @@ fn check_umad_child(child: &[UGene], len: usize, handed_out: u32, first_serial: 
                 }
             }
         }
-        return;
+        return rep.take();
     }
     // placement: never a fresh gene before parent position 0's slot, at most one fresh
     // gene between consecutive parent positions. With deletions the slots between
@@ -237,7 +248,7 @@ fn check_umad_child(child: &[UGene], len: usize, handed_out: u32, first_serial: 
     let _ = slots_used_before_first;
     if !ok {
         witness("placement", rep, why);
-        return;
+        return rep.take();
     }
     // degenerate rates are exact
     if cfg.add <= 0.0 && !fresh.is_empty() {
@@ -259,6 +270,7 @@ fn check_umad_child(child: &[UGene], len: usize, handed_out: u32, first_serial: 
             witness("addition-1-deletion-0", rep, "every parent gene must be followed by exactly one new gene".into());
         }
     }
+    rep.take()
 }
 
 fn umad_round(g: &mut Xo, rep: &mut Report) {
@@ -302,8 +314,26 @@ fn umad_round(g: &mut Xo, rep: &mut Report) {
     let gen = SerialGen { next: Cell::new(first_serial) };
     // every parent gene is a distinct literal, so positions are unambiguous (a payload-free
     // Close gene could be matched to several parent positions)
-    let parent = Plushy::new((0..len as i64).map(|i| PushGene::Instruction(PushInstruction::push_int(i))));
-    let closes_in_parent: Vec<usize> = Vec::new();
+    // ... except for up to four Close genes: genomes really contain them, and a genome type
+    // may treat them specially. Which parent Close a child's Close came from is not observable,
+    // so every order-preserving assignment is tried and the child is accepted if any fits.
+    let n_close = if len >= 2 && g.chance(1, 2) { 1 + g.usize_below(4.min(len)) } else { 0 };
+    let mut closes_in_parent: Vec<usize> = Vec::new();
+    while closes_in_parent.len() < n_close {
+        let c = match g.below(4) {
+            0 => 0,
+            1 => len - 1,
+            _ => g.usize_below(len),
+        };
+        if !closes_in_parent.contains(&c) {
+            closes_in_parent.push(c);
+        }
+    }
+    closes_in_parent.sort_unstable();
+    let parent = Plushy::new((0..len as i64).map(|i| if closes_in_parent.contains(&(i as usize)) { PushGene::Close } else { PushGene::Instruction(PushInstruction::push_int(i)) }));
+    if n_close > 0 {
+        rep.count("Umad/Plushy:parent-with-close-genes");
+    }
     let out = catch(|| {
         let mut rng = TraceRng::new(s);
         match cfg.ctor {
@@ -316,47 +346,60 @@ fn umad_round(g: &mut Xo, rep: &mut Report) {
     rep.count("Umad/Plushy");
     match out {
         Ok(Ok(child)) => {
-            // translate back to tagged genes; Close genes of the parent are matched greedily
-            // by position order (they carry no payload), which is the most permissive reading
-            let mut tagged = Vec::new();
-            let mut close_iter = closes_in_parent.iter();
-            let mut last_parent: i64 = -1;
+            // translate back to tagged genes; a Close is a placeholder to be assigned
+            let mut shape: Vec<Option<UGene>> = Vec::new();
             let mut bad = None;
             for gene in child.get_genes() {
                 match gene {
-                    PushGene::Close => {
-                        // next parent Close position after the last seen parent position
-                        let mut found = None;
-                        for c in close_iter.by_ref() {
-                            if (*c as i64) > last_parent {
-                                found = Some(*c);
-                                break;
-                            }
-                        }
-                        match found {
-                            Some(c) => {
-                                last_parent = c as i64;
-                                tagged.push(UGene::Parent(c as u32));
-                            }
-                            None => bad = Some("a Close gene that no parent Close can account for".to_string()),
-                        }
-                    }
+                    PushGene::Close => shape.push(None),
                     PushGene::Instruction(PushInstruction::IntInstruction(IntInstruction::Push(v))) => {
                         if v.0 >= 1_000_000 {
-                            tagged.push(UGene::Fresh((v.0 - 1_000_000) as u32));
+                            shape.push(Some(UGene::Fresh((v.0 - 1_000_000) as u32)));
                         } else {
-                            last_parent = v.0;
-                            tagged.push(UGene::Parent(v.0 as u32));
+                            shape.push(Some(UGene::Parent(v.0 as u32)));
                         }
                     }
                     other => bad = Some(format!("a gene that is neither a parent gene nor from the generator: {other:?}")),
                 }
             }
+            let child_closes = shape.iter().filter(|x| x.is_none()).count();
+            if bad.is_none() && child_closes > closes_in_parent.len() {
+                bad = Some(format!("{child_closes} Close genes in the child, only {} in the parent (the generator hands out literals only)", closes_in_parent.len()));
+            }
             if let Some(why) = bad {
-                rep.violation("C11/Umad/Plushy/foreign-gene", || json!({"config": cfg_text, "parent_len": len, "why": why}));
+                rep.violation("C11/Umad/Plushy/foreign-gene", || json!({"config": cfg_text, "parent_len": len, "parent_close_positions": closes_in_parent, "why": why}));
             } else {
                 let handed = gen.next.get() - first_serial;
-                check_umad_child(&tagged, len, handed, first_serial, &cfg, &cfg_text, "Plushy", rep);
+                // all order-preserving choices of `child_closes` parent Close positions
+                let m = closes_in_parent.len();
+                let mut verdict: Option<(&'static str, String)> = None;
+                let mut accepted = false;
+                let mut first_tagging: Vec<UGene> = Vec::new();
+                for mask in 0u32..(1 << m) {
+                    if mask.count_ones() as usize != child_closes {
+                        continue;
+                    }
+                    let mut chosen = (0..m).filter(|i| mask & (1 << i) != 0).map(|i| closes_in_parent[i]);
+                    let tagged: Vec<UGene> = shape.iter().map(|x| x.clone().unwrap_or_else(|| UGene::Parent(chosen.next().unwrap() as u32))).collect();
+                    match judge_umad_child(&tagged, len, handed, first_serial, &cfg) {
+                        None => {
+                            accepted = true;
+                            break;
+                        }
+                        Some(v) => {
+                            if verdict.is_none() {
+                                verdict = Some(v);
+                                first_tagging = tagged;
+                            }
+                        }
+                    }
+                }
+                if !accepted {
+                    let (what, why) = verdict.unwrap_or(("foreign-gene", "no assignment of Close genes exists".into()));
+                    rep.violation(format!("C11/Umad/Plushy/{what}"), || json!({"config": cfg_text, "parent_len": len, "parent_close_positions": closes_in_parent,
+                        "child": format!("{:?}", child.get_genes()).chars().take(3000).collect::<String>(), "one_reading_of_the_child": format!("{first_tagging:?}").chars().take(2000).collect::<String>(),
+                        "why": format!("under every assignment of the child's Close genes to parent Close genes the child is illegal; e.g. {why}")}));
+                }
             }
         }
         other => rep.violation("C11/Umad/Plushy/failed", || json!({"config": cfg_text, "parent_len": len, "observed": format!("{:?}", other.map(|r| r.map(|p| p.get_genes().len())))})),
